@@ -982,6 +982,58 @@ type actxRetInfo struct {
 }
 
 // valueFieldStores: the values stored (on feasible blocks) into field i of a local struct.
+// fieldStoresAt: only the stores that can reach the instruction `at` along feasible edges (a
+// named result record that is filled on one path and returned on another: `result.Exception = …;
+// return result` in one branch, `result.ReturnValue = …; return result` later).
+func (ef *actxEvalFrame) fieldStoresAt(a *ssa.Alloc, field int, at ssa.Instruction) []ssa.Value {
+	var out []ssa.Value
+	reachCache := map[*ssa.BasicBlock]map[*ssa.BasicBlock]bool{}
+	reaches := func(from *ssa.BasicBlock) map[*ssa.BasicBlock]bool {
+		if r, ok := reachCache[from]; ok {
+			return r
+		}
+		seen := map[*ssa.BasicBlock]bool{}
+		work := []*ssa.BasicBlock{from}
+		for len(work) > 0 {
+			b := work[len(work)-1]
+			work = work[:len(work)-1]
+			if seen[b] {
+				continue
+			}
+			seen[b] = true
+			for _, s := range b.Succs {
+				if ef.edgeOK(b, s) {
+					work = append(work, s)
+				}
+			}
+		}
+		reachCache[from] = seen
+		return seen
+	}
+	for _, r := range *a.Referrers() {
+		fa, ok := r.(*ssa.FieldAddr)
+		if !ok || fa.Field != field || fa.Referrers() == nil {
+			continue
+		}
+		for _, r2 := range *fa.Referrers() {
+			st, ok := r2.(*ssa.Store)
+			if !ok || st.Addr != ssa.Value(fa) || !ef.feasible[st.Block()] {
+				continue
+			}
+			if st.Block() == at.Block() {
+				if actxInstrIndex(st) < actxInstrIndex(at) {
+					out = append(out, st.Val)
+				}
+				continue
+			}
+			if reaches(st.Block())[at.Block()] {
+				out = append(out, st.Val)
+			}
+		}
+	}
+	return out
+}
+
 func (ef *actxEvalFrame) fieldStores(a *ssa.Alloc, field int) []ssa.Value {
 	var out []ssa.Value
 	for _, r := range *a.Referrers() {
@@ -1141,7 +1193,7 @@ func (ef *actxEvalFrame) returns(resType *types.Named, excField, valField int, d
 			out = append(out, info)
 			continue
 		}
-		for _, v := range ef.fieldStores(al, excField) {
+		for _, v := range ef.fieldStoresAt(al, excField, r) {
 			if k, isConst := v.(*ssa.Const); !isConst || !k.IsNil() {
 				info.exception = true
 			}
@@ -1150,7 +1202,7 @@ func (ef *actxEvalFrame) returns(resType *types.Named, excField, valField int, d
 			out = append(out, info)
 			continue
 		}
-		vals := ef.fieldStores(al, valField)
+		vals := ef.fieldStoresAt(al, valField, r)
 		if len(vals) == 0 {
 			info.why = "the value field of the result is never set (ReturnValue stays nil)"
 		}
